@@ -190,63 +190,81 @@ theorem stepAt_led (i : Nat) (op : Show.Op) (hop : op.isPlay = false) : ∀ (l :
 /-- the invariant: the ledgers, and no tag in the trace names an instance that does not exist yet -/
 def LedInv (s : KS) (tr : List TObs) : Prop := Led tr s.insts ∧ Below s.insts.length tr
 
-theorem step_led (s : KS) (o : KOp) (tr : List TObs) (h : LedInv s tr) : LedInv (step s o).1 (tr ++ (step s o).2) := by
+theorem playNew_led (c : Option (Nat × Option Nat × Nat)) (s : KS) (durs : List Nat) (num den : Nat) (loops : Option Nat)
+    (start : Int) (running manual : Bool) (sync t : Nat) (tr : List TObs) (h : LedInv s tr) :
+    LedInv (playNew c s durs num den loops start running manual sync t).1
+      (tr ++ (playNew c s durs num den loops start running manual sync t).2) := by
   obtain ⟨hl, hb⟩ := h
-  cases o with
-  | play durs num den loops start running manual sync t =>
-    have hf := play_ledger durs num den loops start running manual sync t
-    simp only [step]
-    cases hls : s.insts with
-    | nil =>
-      rw [hls] at hl hb
-      refine ⟨⟨⟨loops, ?_⟩, trivial⟩, below_append _ _ _ (below_mono _ _ (by simp) _ hb) (below_tag _ _ (by simp) _)⟩
-      rw [proj_append, proj_below _ _ (Nat.le_refl _) _ hb, proj_tag_same]
+  have hf := play_ledger durs num den loops start running manual sync t
+  simp only [playNew]
+  cases hls : s.insts with
+  | nil =>
+    rw [hls] at hl hb
+    refine ⟨⟨⟨loops, ?_⟩, trivial⟩, below_append _ _ _ (below_mono _ _ (by simp) _ hb) (below_tag _ _ (by simp) _)⟩
+    rw [proj_append, proj_below _ _ (Nat.le_refl _) _ hb, proj_tag_same]
+    exact hf
+  | cons x rest =>
+    rw [hls] at hl hb
+    have hnew : ∀ (o : List TObs), Below (x :: rest).length o →
+        ∃ n0, Ledger n0 (Show.step {} (.play durs num den loops start running manual sync t)).1
+          (proj (x :: rest).length ((tr ++ o) ++ tag (x :: rest).length
+            (Show.step {} (.play durs num den loops start running manual sync t)).2)) := by
+      intro o ho
+      refine ⟨loops, ?_⟩
+      rw [proj_append, proj_append, proj_below _ _ (Nat.le_refl _) _ hb, proj_below _ _ (Nat.le_refl _) _ ho, proj_tag_same]
       exact hf
-    | cons x rest =>
-      rw [hls] at hl hb
-      have hnew : ∀ (o : List TObs), Below (x :: rest).length o →
-          ∃ n0, Ledger n0 (Show.step {} (.play durs num den loops start running manual sync t)).1
-            (proj (x :: rest).length ((tr ++ o) ++ tag (x :: rest).length
-              (Show.step {} (.play durs num den loops start running manual sync t)).2)) := by
-        intro o ho
-        refine ⟨loops, ?_⟩
-        rw [proj_append, proj_append, proj_below _ _ (Nat.le_refl _) _ hb, proj_below _ _ (Nat.le_refl _) _ ho, proj_tag_same]
-        exact hf
-      have hold : ∀ (l' : List Inst) (tr' : List TObs), l'.length = (x :: rest).length → Led tr' l' →
-          Led (tr' ++ tag (x :: rest).length (Show.step {} (.play durs num den loops start running manual sync t)).2) l' := by
-        intro l' tr' hlen h'
-        apply led_append_high _ _ _ _ h'
-        intro k hk
-        exact proj_tag_other _ _ (by omega) _
-      simp only
-      split
+    have hold : ∀ (l' : List Inst) (tr' : List TObs), l'.length = (x :: rest).length → Led tr' l' →
+        Led (tr' ++ tag (x :: rest).length (Show.step {} (.play durs num den loops start running manual sync t)).2) l' := by
+      intro l' tr' hlen h'
+      apply led_append_high _ _ _ _ h'
+      intro k hk
+      exact proj_tag_other _ _ (by omega) _
+    simp only
+    split
+    · have := hnew [] (by intro y hy; simp at hy)
+      rw [List.append_nil] at this
+      exact ⟨⟨this, hold _ _ rfl hl⟩, below_append _ _ _ (below_mono _ _ (by simp) _ hb) (below_tag _ _ (by simp) _)⟩
+    · split
       · have := hnew [] (by intro y hy; simp at hy)
         rw [List.append_nil] at this
         exact ⟨⟨this, hold _ _ rfl hl⟩, below_append _ _ _ (below_mono _ _ (by simp) _ hb) (below_tag _ _ (by simp) _)⟩
-      · split
-        · have := hnew [] (by intro y hy; simp at hy)
-          rw [List.append_nil] at this
-          exact ⟨⟨this, hold _ _ rfl hl⟩, below_append _ _ _ (below_mono _ _ (by simp) _ hb) (below_tag _ _ (by simp) _)⟩
-        · have hs := stopFrom_led (x :: rest) tr hl
-          have hlen := stopFrom_length (x :: rest)
-          dsimp only
-          rw [← List.append_assoc]
-          refine ⟨⟨?_, hold _ _ hlen hs.1⟩, ?_⟩
-          · rw [hlen]; exact hnew _ hs.2
-          · simp only [List.length_cons, hlen]
-            exact below_append _ _ _ (below_append _ _ _ (below_mono _ _ (by simp) _ hb) (below_mono _ _ (by simp) _ hs.2))
-              (below_tag _ _ (by simp) _)
-  | req op =>
-    simp only [step]
-    split
-    · rename_i hr
-      have := stepAt_led (s.insts.length - 1) op (isReq_notPlay op hr) s.insts tr hl
-      exact ⟨this.1, by rw [stepAt_length]; exact below_append _ _ _ hb this.2⟩
-    · exact ⟨by rw [List.append_nil]; exact hl, by rw [List.append_nil]; exact hb⟩
+      · have hs := stopFrom_led (x :: rest) tr hl
+        have hlen := stopFrom_length (x :: rest)
+        dsimp only
+        rw [← List.append_assoc]
+        refine ⟨⟨?_, hold _ _ hlen hs.1⟩, ?_⟩
+        · rw [hlen]; exact hnew _ hs.2
+        · simp only [List.length_cons, hlen]
+          exact below_append _ _ _ (below_append _ _ _ (below_mono _ _ (by simp) _ hb) (below_mono _ _ (by simp) _ hs.2))
+            (below_tag _ _ (by simp) _)
+
+theorem reqStep_led (s : KS) (op : Show.Op) (tr : List TObs) (h : LedInv s tr) :
+    LedInv (reqStep s op).1 (tr ++ (reqStep s op).2) := by
+  obtain ⟨hl, hb⟩ := h
+  simp only [reqStep]
+  split
+  · rename_i hr
+    have := stepAt_led (s.insts.length - 1) op (isReq_notPlay op hr) s.insts tr hl
+    exact ⟨this.1, by rw [stepAt_length]; exact below_append _ _ _ hb this.2⟩
+  · exact ⟨by rw [List.append_nil]; exact hl, by rw [List.append_nil]; exact hb⟩
+
+theorem step_led (s : KS) (o : KOp) (tr : List TObs) (h : LedInv s tr) : LedInv (step s o).1 (tr ++ (step s o).2) := by
+  cases o with
+  | play durs num den loops start running manual sync t => exact playNew_led _ s _ _ _ _ _ _ _ _ _ tr h
+  | req op => exact reqStep_led s op tr h
   | fire i t =>
+    obtain ⟨hl, hb⟩ := h
     simp only [step]
     have := stepAt_led i (.fire t) rfl s.insts tr hl
     exact ⟨this.1, by rw [stepAt_length]; exact below_append _ _ _ hb this.2⟩
+  | playc cid durs num den loops start running manual sync t =>
+    simp only [step]
+    split
+    · exact playNew_led _ s _ _ _ _ _ _ _ _ _ tr h
+    · split
+      · rw [List.append_nil]; exact h
+      · exact reqStep_led s _ tr h
+      · exact playNew_led _ s _ _ _ _ _ _ _ _ _ tr h
 
 theorem run_led (ops : List KOp) : ∀ (s : KS) (tr : List TObs), LedInv s tr → LedInv (run s ops).1 (tr ++ (run s ops).2) := by
   induction ops with
